@@ -257,6 +257,21 @@ SPECS["C19"] = dict(
                        params={"quick": {"DEPTH": 5, "FAULTS": 2}, "thorough": {"DEPTH": 7, "FAULTS": 3}})],
 )
 
+SPECS["C13"] = dict(
+    level="model_checking",
+    engine="E3 evx",
+    state_based=True,
+    technique="exhaustive enumeration of segmentations x pipelining x completion orders x write-completion orders on the real TCP and gnet handlers, differential against a reference framer",
+    claim="For every enumerated segmentation of a stream of up to 2 (quick) / 3 (thorough) pipelined queries (cuts inside the prefix, inside bodies, several frames per segment; all 2^(n-1) "
+          "segmentations for one frame in the thorough tier), every completion order of the concurrent handlers, parked response writes released out of order, and connection limits 1/2/100: "
+          "both stream listeners decode each frame exactly once, emit one contiguous well-formed frame per query and answer the surplus over the limit with REFUSED.",
+    trusted="fake gnet.Conn modelled on gnet v2.3.6 (Next/InboundBuffered/AsyncWrite semantics) driven by a fake single-goroutine event loop; DoT is the TCP handler over crypto/tls (covered by C03's tls seam with whole-frame writes).",
+    rule="see evidence rule written by the harness",
+    assumptions=["gnet delivers each TCP segment as one OnTraffic call and keeps unconsumed bytes buffered"],
+    parts=[router_part("framing", "TestVerifC13", ["zz_verif_c13_test.go", "zz_verif_c03_test.go"],
+                       params={"quick": {"MAXK": 2, "RICH": 1, "FULLSEG": 0}, "thorough": {"MAXK": 3, "RICH": 0, "FULLSEG": 1}})],
+)
+
 
 # --------------------------------------------------------------------------------------------
 # Properties not (yet) claimed. Kept current: every property without a SPECS entry must be here.
